@@ -145,7 +145,7 @@ CHECKS["C28"] = {"pkg": "api", "shards": 14, "timeout_quick": 900, "timeout_thor
     "text": "Generated request sequences over every endpoint, with parameters drawn from live node values and mutated per field (missing, wrong type, huge, boundary numbers, scientific notation, unicode, long lists), JSON bodies with wrong-typed / missing / unknown members and broken JSON, and encoded transactions that spend spent, unknown and unsigned inputs; every request must return within the watchdog with a status in 200-599 and a body that parses as its content type, no handler may panic, and the node must still answer /health afterwards; the verify endpoint must return a verdict for any encoded transaction.",
     "note": "in-process serving through the verif hook VerifNewServerMux (a panic is seen directly); address-derivation counts are bounded to 10 and wallets use sha256-xor to keep cases cheap; every case runs on a fresh copy of a node template built once per process"}
 
-CHECKS["C32"] = {"pkg": "pool", "race": True, "shards": 14, "timeout_quick": 900, "timeout_thorough": 3000,
+CHECKS["C32"] = {"pkg": "pool", "race": True, "shards": 14, "shrinktime": "5s", "timeout_quick": 900, "timeout_thorough": 3000,
     "technique": "generated concurrent programs (rapid) against a real gnet.ConnectionPool under the Go race detector, with drawn scheduling perturbation; invariants on return values, termination (watchdog with reproduce-before-report) and post-shutdown state",
     "text": "Generated concurrent programs: 2-6 worker goroutines run drawn operation lists (connect, raw inbound dials with valid / hostile bytes, disconnect, send, broadcast, queries, peer-side closes) with drawn pauses while one of them calls Shutdown at a drawn point; the binary is built with -race and stops at the first report. No race, no panic, every call returns, calls issued after Shutdown returned yield the pool-closed error, Shutdown and Run return, no connection stays registered and every peer socket is closed.",
     "note": "sampling of schedules, not enumeration; a race or a reproducible hang is evidence, their absence is not a proof; failing programs are saved as JSON and replayed 30 times by --replay"}
